@@ -15,6 +15,6 @@ def run(tier, rep):
     rng = random.Random(seed())
     with workdir("C02ss") as wd:
         ss = render.exec_specs(wd, rep, 250 if tier == "quick" else 2500, seed(), want="shape")[: (40 if tier == "quick" else 600)]
-    specs = sample(families.gen_shape, rng, 60 if tier == "quick" else 700) + ss
+    specs = sample(families.gen_shape, rng, 60 if tier == "quick" else 700) + sample(families.renamed(families.gen_shape), rng, 12 if tier == "quick" else 100) + ss
     run_exec("C02", tier, rep, specs, CLAUSES, cap_q=30, cap_t=200, rng=rng,
              rule="seeded sample of base Einsums x per-rank stacks of 0-3 uniform_shape/nway_shape levels (literal and symbolic sizes, sizes 1,2,3,7) x random loop order over all levels")
